@@ -219,6 +219,27 @@ class _Stop(Exception):
     pass
 
 
+def guarded_check(eng: Engine, case: Any) -> Outcome:
+    """eng.check(case); an exception that escapes from the code under test (the deepest frames of the
+    traceback belong to the repository, not to /verif) is a violation of its own, not a harness error."""
+    try:
+        return eng.check(case)
+    except Exception as exc:
+        from . import deps
+        repo = str(deps.REPO)
+        frames = traceback.extract_tb(exc.__traceback__)
+        idx_verif = max((i for i, f in enumerate(frames) if f.filename.startswith(str(VERIF))), default=-1)
+        idx_repo = max((i for i, f in enumerate(frames) if f.filename.startswith(repo)), default=-1)
+        if idx_repo > idx_verif >= 0:
+            fr = frames[idx_repo]
+            out = Outcome()
+            out.fail(f"uncaught/{type(exc).__name__}/{Path(fr.filename).name}:{fr.name}",
+                     f"{type(exc).__name__}: {exc} at {fr.filename}:{fr.lineno} (called from "
+                     f"{Path(frames[idx_verif].filename).name}:{frames[idx_verif].lineno})")
+            return out
+        raise
+
+
 def drive_hypothesis(ctx: ShardContext, idx: int, eng: Engine) -> None:
     import hypothesis
     from hypothesis import given
@@ -229,7 +250,7 @@ def drive_hypothesis(ctx: ShardContext, idx: int, eng: Engine) -> None:
     @hyp_settings(n, shrink=False)
     @given(strat)
     def collect(case):
-        out = eng.check(case)
+        out = guarded_check(eng, case)
         ctx.record(eng.name, case, out)
 
     collect()
@@ -265,7 +286,7 @@ def drive_enumerate(ctx: ShardContext, idx: int, eng: Engine) -> None:
     for i, case in enumerate(eng.cases(ctx.tier)):
         if i % ctx.nshards != ctx.shard:
             continue
-        out = eng.check(case)
+        out = guarded_check(eng, case)
         ctx.record(eng.name, case, out)
     ctx.stats.exhaustive[eng.name] = bool(eng.exhaustive)
 
@@ -315,7 +336,7 @@ def replay_case(mod, engine_name: str, case: Any) -> Outcome:
             try:
                 if hasattr(eng, "replay"):
                     return eng.replay(case)
-                return eng.check(case)
+                return guarded_check(eng, case)
             finally:
                 eng.teardown()
     raise HarnessError(f"no engine {engine_name!r} in {mod.__name__}")
